@@ -120,7 +120,7 @@ def sites_of(f, facts):
             prod = ""
             if kind in ("panic", "assert", "panic-const"):
                 kind = mk.rstrip("!") if mk else kind
-                prod = ""
+                prod = _panic_guard(f, b, tb)
             elif argi is not None and t["args"]:
                 recv = tb.operand(t["args"][argi])
                 prod = short_term(recv)
@@ -130,6 +130,27 @@ def sites_of(f, facts):
                 pass
             out.append(Site(f, b, kind, prod, t.get("line"), t.get("mac"), name, recv, detail=t))
     return out
+
+
+def _panic_guard(f, b, tb):
+    """The condition that leads into a panic block: operand of the nearest
+    switch reached by walking single predecessors backwards (names the
+    assertion: `Eq(len(actions), 1)`, `discr(x)` ...)."""
+    seen = set()
+    cur = b
+    while cur not in seen:
+        seen.add(cur)
+        ps = f.pred(cur)
+        if len(ps) != 1:
+            return ""
+        p = ps[0]
+        t = f.blocks[p]["term"]
+        if t["k"] == "switch":
+            if mir.is_log(t):
+                return ""
+            return short_term(tb.operand(t["op"]), 60)
+        cur = p
+    return ""
 
 
 def _len_base(tb, op):
